@@ -544,3 +544,84 @@ def monitor_c03(se, stats):
                     viol.append({"step": i, "what": "queue %s after `%s`: returned batch + waiting messages leave as %s, expected %s" % (qn, st["op"], got, want)})
         prev = cur
     return viol
+
+
+def monitor_c14(se, stats):
+    """Closing a channel or losing a connection releases everything it held."""
+    viol = []
+    prev = None
+    qborn, uborn = {}, {}
+    for i, st in enumerate(se["steps"]):
+        if st["snap"] == ["WEDGED"]:
+            viol.append({"step": i, "what": "the broker stopped answering (teardown or handler wedged) after `%s`: %s" % (st["op"], st.get("note"))})
+            break
+        cur = parse_snap(st["snap"])
+        f = st["op"].split()
+        for qn in cur["queues"]:
+            if prev is None or qn not in prev["queues"]:
+                qborn[qn] = i
+        for key, ch in cur["chans"].items():
+            for u in ch["unacked"]:
+                uborn.setdefault((key, u["tag"], u["uid"]), i)
+        # global consistency: the consumers a queue lists are exactly the live consumers registered on channels for it
+        want = {}
+        for key, ch in cur["chans"].items():
+            for cm in ch["consumers"]:
+                if cm["status"] != 1:
+                    want.setdefault(cm["queue"], []).append(cm["tag"])
+        for qn, q in cur["queues"].items():
+            stats["queue_consumer_lists"] = stats.get("queue_consumer_lists", 0) + 1
+            if sorted(q["consumers"]) != sorted(want.get(qn, [])):
+                viol.append({"step": i, "what": "queue %s lists consumers %s but the live consumers on channels are %s (after `%s`)" % (
+                    qn, sorted(q["consumers"]), sorted(want.get(qn, [])), st["op"])})
+        if prev is not None:
+            ended_conn = None
+            if f[0] in ("DROP", "CLOSE", "CLOSEOK"):
+                ended_conn = int(f[1])
+            closed_chan = None
+            if f[0] == "CHCLOSE" or (f[0] == "CHCLOSEOK" and prev["chans"].get((int(f[1]), int(f[2])), {"st": 0})["st"] == 2):
+                closed_chan = (int(f[1]), int(f[2]))
+            scope = []
+            if ended_conn is not None:
+                stats["connection_ends"] = stats.get("connection_ends", 0) + 1
+                if ended_conn in cur["conns"]:
+                    viol.append({"step": i, "what": "connection %d still known to the broker after `%s`" % (ended_conn, st["op"])})
+                if not any(x == "%d.0:GONE" % ended_conn for x in st["frames"]) and "TIMEOUT" in (st.get("note") or ""):
+                    viol.append({"step": i, "what": "the socket of connection %d was not closed after `%s`" % (ended_conn, st["op"])})
+                scope = [k for k in prev["chans"] if k[0] == ended_conn]
+                for qn, q in prev["queues"].items():
+                    if q["excl"] and q["owner"] == ended_conn and qn in cur["queues"] and cur["queues"][qn]["owner"] == ended_conn:
+                        viol.append({"step": i, "what": "exclusive queue %s of connection %d survives `%s`" % (qn, ended_conn, st["op"])})
+            elif closed_chan is not None:
+                stats["channel_closes"] = stats.get("channel_closes", 0) + 1
+                scope = [closed_chan]
+                ch = cur["chans"].get(closed_chan)
+                if ch is not None:
+                    if ch["consumers"] or ch["unacked"]:
+                        viol.append({"step": i, "what": "channel %s keeps consumers %s / unsettled deliveries %s after `%s`" % (
+                            closed_chan, [c_["tag"] for c_ in ch["consumers"]], [u["tag"] for u in ch["unacked"]], st["op"])})
+                    if ch["qos"][2:] != [0, 0]:
+                        viol.append({"step": i, "what": "channel %s still has prefetch accounting %s after `%s`" % (closed_chan, ch["qos"], st["op"])})
+            if scope:
+                # every unsettled delivery of the scope is back in its queue (or was handed on at once), unless the queue is gone
+                dels = _deliveries(st, prev)
+                for key in scope:
+                    for u in prev["chans"][key]["unacked"]:
+                        qn = u["queue"]
+                        if qn not in cur["queues"] or qn not in prev["queues"]:
+                            continue
+                        if uborn.get((key, u["tag"], u["uid"]), i) < qborn.get(qn, 0):
+                            continue      # delivered from an earlier queue object of that name, which was deleted
+                        back = u["uid"] in cur["queues"][qn]["ready"] or any(d["uid"] == u["uid"] and d["queue"] == qn for d in dels if d["kind"] != "basic.return")
+                        back = back or any(x["uid"] == u["uid"] and x["queue"] == qn for ch2 in cur["chans"].values() for x in ch2["unacked"])
+                        # an orphan of an earlier queue object of that name does not return
+                        if not back and u["uid"] != "?":
+                            viol.append({"step": i, "what": "unsettled delivery of message %s (queue %s) held by %s did not return after `%s`" % (u["uid"], qn, key, st["op"])})
+                # auto-delete queues whose last consumers were in the scope are deleted
+                for qn, q in prev["queues"].items():
+                    if q["ad"] and q["consumers"]:
+                        owners = [key for key, ch in prev["chans"].items() for cm in ch["consumers"] if cm["queue"] == qn and cm["status"] != 1]
+                        if owners and all(o in scope for o in owners) and qn in cur["queues"]:
+                            viol.append({"step": i, "what": "auto-delete queue %s lost its last consumer through `%s` but still exists" % (qn, st["op"])})
+        prev = cur
+    return viol
